@@ -10,6 +10,7 @@ from .values import Unsupported
 
 QUICK_TIMEOUT_MS = int(os.environ.get('PYVC_TIMEOUT_MS', '20000'))
 FEAS_TIMEOUT_MS = 3000
+Z3_FIRST_MS = int(os.environ.get('PYVC_Z3_FIRST_MS', '1500'))
 CVC5 = '/usr/bin/cvc5'
 
 
@@ -138,6 +139,10 @@ class Ctx:
         self.solver = z3.Solver()
         self.solver.set('timeout', FEAS_TIMEOUT_MS)
         self.notes = []
+        self.family = []               # active L3 loop levels (loops.Family)
+        self.pos_ids = set()           # z3 ast ids of terms known >= 1 / >= 0 (syntactic sign inference)
+        self.nonneg_ids = set()
+        self.defs = {}                 # let-named locals: z3 id -> (constant, definition)
 
     # ---- fresh symbols (deterministic names => replay-stable)
     def _name(self, base):
@@ -157,6 +162,10 @@ class Ctx:
         z = self.fresh_int(base)
         if lo is not None:
             self.assume_raw(z >= V.zint(lo))
+            if isinstance(lo, int) and lo >= 0:
+                self.nonneg_ids.add(z.get_id())
+                if lo >= 1:
+                    self.pos_ids.add(z.get_id())
         if hi is not None:
             self.assume_raw(z <= V.zint(hi))
         if name:
@@ -180,6 +189,9 @@ class Ctx:
         z = z3.simplify(z)
         if z3.is_true(z):
             return
+        if self.guards:
+            # facts derived while evaluating under guards hold under those guards only
+            z = z3.Implies(z3.And(*[V.zbool(g) for g in self.guards]), z)
         self.pc.append(z)
         self.solver.add(z)
 
@@ -193,6 +205,8 @@ class Ctx:
     def _check(self, extra):
         self.solver.push()
         try:
+            for g in self.guards:
+                self.solver.add(V.zbool(g))
             self.solver.add(extra)
             t0 = time.time()
             r = self.solver.check()
@@ -214,12 +228,101 @@ class Ctx:
             return False
         return self._check(z3.Not(cz)) == z3.unsat
 
+    def known_fast(self, cz, ms=400):
+        """pc => cz proved within a very small budget (used by the syntactic bound prover)"""
+        cz = z3.simplify(V.zbool(cz))
+        if z3.is_true(cz):
+            return True
+        if z3.is_false(cz):
+            return False
+        self.solver.set('timeout', ms)
+        try:
+            return self._check(z3.Not(cz)) == z3.unsat
+        finally:
+            self.solver.set('timeout', FEAS_TIMEOUT_MS)
+
+    # ---- bound lemmas: help the solver with the mixed-radix pattern before it sees an obligation
+    def _atoms_of(self, cz, out, depth=0):
+        if z3.is_and(cz):
+            for ch in cz.children():
+                self._atoms_of(ch, out, depth + 1)
+        elif z3.is_not(cz) and z3.is_app(cz.arg(0)) and cz.arg(0).decl().kind() in (z3.Z3_OP_LE, z3.Z3_OP_GE, z3.Z3_OP_LT, z3.Z3_OP_GT):
+            a = cz.arg(0)
+            k = a.decl().kind()
+            L, R = a.arg(0), a.arg(1)
+            neg = {z3.Z3_OP_LE: L > R, z3.Z3_OP_GE: L < R, z3.Z3_OP_LT: L >= R, z3.Z3_OP_GT: L <= R}[k]
+            out.append(neg)
+        elif z3.is_app(cz) and cz.decl().kind() in (z3.Z3_OP_LE, z3.Z3_OP_GE, z3.Z3_OP_LT, z3.Z3_OP_GT):
+            out.append(cz)
+        elif z3.is_app(cz) and cz.decl().kind() == z3.Z3_OP_IMPLIES:
+            self._atoms_of(cz.arg(1), out, depth + 1)
+        elif z3.is_or(cz) and depth < 2:
+            for ch in cz.children():
+                self._atoms_of(ch, out, depth + 1)
+
+    def bound_lemmas(self, cz):
+        """for every comparison atom  P <= c*m  (m a product of symbols) of the goal, try the syntactic mixed-radix
+        bound prover; proved bounds are added to the path condition (they follow from it)"""
+        atoms = []
+        try:
+            self._atoms_of(cz, atoms)
+        except Exception:
+            return
+        for a in atoms[:12]:
+            k = a.decl().kind()
+            L, R = a.arg(0), a.arg(1)
+            if not (L.sort() == z3.IntSort()):
+                continue
+            if k in (z3.Z3_OP_GE, z3.Z3_OP_GT):
+                L, R = R, L
+            strict = k in (z3.Z3_OP_LT, z3.Z3_OP_GT)
+            # L <= R  (or <):  move everything to  pos <= neg
+            try:
+                mons = V._monomials(L - R)
+            except Exception:
+                continue
+            negs = [(cf, at) for cf, at in mons if cf < 0]
+            poss = [(cf, at) for cf, at in mons if cf > 0]
+            if len(negs) != 1 or not negs[0][1]:
+                continue
+            b = V._mono_term(-negs[0][0], negs[0][1])
+            rest = z3.IntVal(0 if strict else -1)
+            for cf, at in poss:
+                rest = rest + V._mono_term(cf, at)
+            rest = z3.simplify(rest)
+            if not all(V._pos_term(self, t) or self.known_fast(t >= 1) for _, t in negs[0][1]):
+                continue
+            try:
+                V.prove_lt(self, rest, b)
+            except Unsupported:
+                pass
+
+    def prove(self, cond):
+        """pc => cond, using bound lemmas first (for simplifying conditionals while building terms)"""
+        cz = z3.simplify(V.zbool(cond))
+        if z3.is_true(cz):
+            return True
+        if z3.is_false(cz):
+            return False
+        if self.known_fast(cz):
+            return True
+        self.bound_lemmas(cz)
+        return self.known(cz)
+
     def decide(self, cond):
         cz = z3.simplify(V.zbool(cond))
         if z3.is_true(cz):
             return True
         if z3.is_false(cz):
             return False
+        if getattr(self, 'family', None):
+            from .loops import family_guard_decide
+            # a branch whose outcome is already determined by the path condition is not a fork
+            if self._check(z3.Not(cz)) == z3.unsat:
+                return True
+            if self._check(cz) == z3.unsat:
+                return False
+            family_guard_decide(self, cz)
         if self.pos < len(self.prefix):
             choice = self.prefix[self.pos]
         else:
@@ -258,6 +361,8 @@ class Ctx:
         """Record the obligation  pc /\\ guards => cond  and try to discharge it now."""
         cz = z3.simplify(V.zbool(cond))
         name = f'{self.ex.fuc}/{kind}.{label}'
+        if not z3.is_true(cz) and not z3.is_false(cz):
+            self.bound_lemmas(cz)
         hyp = list(self.pc) + [V.zbool(g) for g in self.guards]
         # known-finding regions: prove the obligation on the complement of the region
         region = None
@@ -295,9 +400,16 @@ class Ctx:
             ob.backend = 'simplifier'
             return ob
         t0 = time.time()
+        # back-end schedule: z3 with a short budget (almost everything is decided in milliseconds), then cvc5
+        # (much better on the few nonlinear mixed-radix identities), then z3 again with the full budget
+        s.set('timeout', min(Z3_FIRST_MS, ex.timeout_ms))
         r = s.check()
         ob.time_s = time.time() - t0
         ob.backend = 'z3'
+        if os.environ.get('PYVC_DUMP') and ob.time_s > 1:
+            os.makedirs(os.environ['PYVC_DUMP'], exist_ok=True)
+            with open(os.path.join(os.environ['PYVC_DUMP'], name.split('/')[-1][-60:] + f'_{len(os.listdir(os.environ["PYVC_DUMP"]))}.smt2'), 'w') as fdump:
+                fdump.write(s.to_smt2())
         if r == z3.unknown:
             txt = s.to_smt2()
             r2 = run_cvc5(txt, ex.timeout_ms / 1000.0)
@@ -306,11 +418,20 @@ class Ctx:
                 r = z3.unsat
                 ob.backend = 'cvc5'
             elif r2 == 'sat':
-                ob.backend = 'cvc5'
-                ob.status = 'violated'
-                ob.model = {'note': 'cvc5 sat; no model extracted'}
-                ex.solver_s += ob.time_s
-                return ob
+                # cvc5 gives no model through this interface: ask z3 for one with the full budget
+                s.set('timeout', ex.timeout_ms)
+                r = s.check()
+                ob.time_s = time.time() - t0
+                if r != z3.sat:
+                    ob.backend = 'cvc5'
+                    ob.status = 'violated'
+                    ob.model = {'note': 'cvc5 sat; no model extracted'}
+                    ex.solver_s += ob.time_s
+                    return ob
+            elif ex.timeout_ms > Z3_FIRST_MS:
+                s.set('timeout', ex.timeout_ms)
+                r = s.check()
+                ob.time_s = time.time() - t0
         ex.solver_s += ob.time_s
         if r == z3.unsat:
             ob.status = 'discharged'
